@@ -105,7 +105,7 @@ Definition recognised (name : text) : bool :=
    name_is name "symmetry.Int_Tables_number" || name_is name "space_group.IT_number" ||
    name_is name "symmetry.space_group_name_H-M" || name_is name "symmetry.space_group_name_Hall" ||
    name_is name "space_group.name_H-M_alt" || name_is name "space_group.name_Hall" ||
-   starts_with "atom_sites.Cartn_transf" name || starts_with "database_PDB_matrix.origx" name ||
+   starts_with "atom_sites.Cartn_transf_" name || starts_with "database_PDB_matrix.origx" name ||
    starts_with "struct_ncs_oper." name)%bool.
 Lemma foreign_single s name v : recognised name = false -> single_item s name v = s.
 Proof.
